@@ -66,11 +66,23 @@ Definition case_oracle_code (q : verdict_case) : N :=
 
 (** * Funnel primitives against the real combineErrors / ignCancel / errors.Is *)
 
-(** (schedule, component errors p s a c, verdict, cleanup, observed non-nil) *)
-Definition funnel_case := (sched * err * err * err * err * err * err * bool)%type.
+(** (what the selects choose, component errors p s a c, verdict, cleanup,
+    observed non-nil of the real combineErrors/ignCancel/errors.Is run over the
+    harness's mirror of the stages, that mirror's reads and cancellations) *)
+Definition funnel_case := (list comp * err * err * err * err * err * err * bool * list (comp * bool) * list comp)%type.
+Definition read_eqb (a b : comp * bool) : bool := comp_eqb (fst a) (fst b) && Bool.eqb (snd a) (snd b).
+Fixpoint list_eqb {A} (eqb : A -> A -> bool) (l1 l2 : list A) : bool :=
+  match l1, l2 with
+  | [], [] => true
+  | a :: l1', b :: l2' => eqb a b && list_eqb eqb l1' l2'
+  | _, _ => false
+  end.
 Definition funnel_model_bad (k : funnel_case) : bool :=
-  let '(sc, p, s, a, c, v, cl, o) := k in
-  negb (Bool.eqb (exit_nonzero (conduct_result sc {| o_p := p; o_s := s; o_a := a; o_c := c |} v cl)) o).
+  let '(ch, p, s, a, c, v, cl, obs, rds, cns) := k in
+  let o := {| o_p := p; o_s := s; o_a := a; o_c := c |} in
+  let r := conduct_run true ch o in
+  negb (Bool.eqb (exit_nonzero (conduct_result true ch o v cl)) obs
+        && list_eqb read_eqb (sh_reads r) rds && list_eqb comp_eqb (sh_cancelled r) cns).
 
 (** (results in completion order, observed non-nil, observed errors.Is(_, Canceled)) *)
 Definition collect_case := (list err * bool * bool)%type.
